@@ -82,7 +82,7 @@ for lab in ([0, 1, 0], [0, 0, 1], [0, 1, 1]):
     quick.append(job("c15.nb_predict", secs=40, n=3, d=2, classes=2, pattern=pat(lab, 2), kind=3, q=1, cut=1))
     quick.append(job("c15.nb_predict", secs=40, n=3, d=2, classes=2, pattern=pat(lab, 2), kind=3, q=1, cut=2))
 quick.append(job("c15.nb_predict", secs=40, allow=("inexact",), n=4, d=1, classes=2, pattern=pat([0, 1, 0, 1], 2), kind=1, q=1, cut=2))
-findings.append(job("c15.nb_predict", secs=40, n=3, d=1, classes=2, pattern=pat([1, 0, 0], 2), kind=1, ob=1, cut=1))
+findings.append(job("c15.nb_predict", secs=40, allow=("inexact",), n=3, d=1, classes=2, pattern=pat([1, 0, 0], 2), kind=1, ob=1, cut=1))
 
 # ---- mini-batch k-means
 quick.append(job("c15.mbk", secs=150, qto=20000, jobs=2, nb=2, bs=2, k=2, d=1, metric=1))   # L1Dist, verdict checked
